@@ -460,7 +460,7 @@ def callSem (w : World) (h : Head) (args : List Den) (lams : List LamD)
   match h with
   | .fn n => fnCall w n args lams.tail kwn kwv
   | .meth recv m =>
-    if m ∈ opNames then fnCall w m (recv :: args) lams [] []
+    if m ∈ opNames then fnCall w m (recv :: args) lams kwn kwv
     else fun env => do
       let r ← recv env
       let vs ← evalAll args env
